@@ -181,6 +181,26 @@ static int call1(String& s, String* out, const char* f, char k1, const Arg& a, c
   }
 }
 
+// one conversion `%[flags][width][.prec][l|ll]<conv>` (or `%%`) among literal chars; returns the conversion char or 0
+static char fmtConv(const char* f)
+{
+  char conv = 0;
+  for(const char* p = f; *p; ++p)
+  {
+    if(*p != '%') continue;
+    ++p;
+    if(*p == '%') continue;
+    if(conv) return 0;
+    while(*p && strchr("-+ 0#", *p)) ++p;
+    while(*p >= '0' && *p <= '9') ++p;
+    if(*p == '.') { ++p; while(*p >= '0' && *p <= '9') ++p; }
+    while(*p == 'l') ++p;
+    if(!*p || !strchr("diuxXocsfeEgG", *p)) return 0;
+    conv = *p;
+  }
+  return conv;
+}
+
 static void idx(const char* p, const String& s)
 {
   if(p) printf("%ld", (long)(p - s.data->str));
@@ -392,6 +412,42 @@ int main()
     else if(hxIs(l, "fromInt64", 2)) { s = String::fromInt64((int64)strtoll(l.tok[2], 0, 10)); }
     else if(hxIs(l, "fromUInt", 2)) { unsigned long long x = strtoull(l.tok[2], 0, 10); if(x > 4294967295ULL || l.tok[2][0] == '-') BAD(); s = String::fromUInt((uint)x); }
     else if(hxIs(l, "fromUInt64", 2)) { if(l.tok[2][0] == '-') BAD(); s = String::fromUInt64((uint64)strtoull(l.tok[2], 0, 10)); }
+    else if(hxIs(l, "printfX", 4))
+    {
+      // s.printf(<any format with one conversion>, <argument>); the 4th token (the expected text) is for the model
+      if(!isHexTok(l.tok[2]) || !isHexTok(l.tok[4])) BAD();
+      d = hxCStr(l.tok[2], len);
+      if(!nulFree(d, len)) BAD();
+      char conv = fmtConv(d);
+      const char* a = l.tok[3];
+      char k = a[0];
+      bool ll = strstr(d, "ll") != 0;
+      int r;
+      if(k == 'D' && conv && strchr("di", conv) && !ll) r = s.printf(d, (int)strtol(a + 1, 0, 10));
+      else if(k == 'U' && conv && strchr("uxXo", conv) && !ll) r = s.printf(d, (unsigned)strtoul(a + 1, 0, 10));
+      else if(k == 'Q' && conv && strchr("di", conv) && ll) r = s.printf(d, (long long)strtoll(a + 1, 0, 10));
+      else if(k == 'W' && conv && strchr("uxXo", conv) && ll) r = s.printf(d, (unsigned long long)strtoull(a + 1, 0, 10));
+      else if(k == 'C' && conv == 'c') { if(!isByte(a + 1, c) || !c) BAD(); r = s.printf(d, (int)c); }
+      else if(k == 'F' && conv && strchr("feEgG", conv) && !ll) r = s.printf(d, strtod(a + 1, 0));
+      else if(k == 'S' && conv == 's')
+      {
+        if(!isHexTok(a + 1)) BAD();
+        d2 = hxCStr(a + 1, len2);
+        if(!nulFree(d2, len2)) BAD();
+        r = s.printf(d, d2);
+      }
+      else BAD();
+      printf("%d ; ", r);
+      printed = true;
+    }
+    else if(hxIs(l, "fromDouble", 3)) { if(!isHexTok(l.tok[3])) BAD(); s = String::fromDouble(strtod(l.tok[2], 0)); }
+    else if(hxIs(l, "scanfD", 3))
+    {
+      int x = 0;
+      int n = s.scanf("%d", &x);
+      printf("%d %d ; ", n, x);
+      printed = true;
+    }
     else if(hxIs(l, "trimD", 1)) s.trim();
     else if(hxIs(l, "substr1", 3)) { if(!isVar(l.tok[2], w)) BAD(); s = var[w]->substr((ssize)hxInt(l, 3)); }
     else if(hxIs(l, "splitD", 2) || hxIs(l, "splitSet", 3))
